@@ -31,7 +31,7 @@ LEVEL = "exploration"
 def generate(rng, ctx):
     thorough = ctx.tier == "thorough"
     schema = gen.gen_schema(rng, depth=rng.choice([1, 2, 3] if thorough else [1, 2]), width=rng.choice([3, 4, 5]))
-    env = {"root": "/nonexistent", "cwd": "/nonexistent", "paths": {}}
+    env = gen.GEN_ENV
     # include fields at the root and/or in one nested schema
     inc = []
     if rng.random() < 0.6:
